@@ -28,8 +28,10 @@ def motl_obj(prog, cls="cryomotl.Motl", **kw):
 
 
 def P(name, space=None):
-    """a symbolic parameter"""
-    return Val(sym(name), space=space)
+    """a symbolic parameter: a value the caller passes (so it is not None -- `if p is None: p = <default>` keeps it)"""
+    v = Val(sym(name), space=space)
+    v.given = True
+    return v
 
 
 _FLIP = {ast.Gt: ast.Lt, ast.GtE: ast.LtE}
